@@ -27,6 +27,8 @@ UNIT_HARNESS = {
     'consts': ('blocks_harness.rs', 'consts'),
     'repeat': ('blocks_harness.rs', 'repeat'),
     'hdlc': ('blocks_harness.rs', 'hdlc'),
+    'crc': ('blocks_harness.rs', 'hdlc'),     # calc_crc / find_right_crc are exercised through the deframer (incl. single-bit repair)
+    'synclib': ('blocks_harness.rs', 'sync'),
     'sync': ('blocks_harness.rs', 'sync'),
     # floating-point blocks: differential chunk-independence (roomy run vs adversarial drip-feed run), tags one-to-one
     'dsp': ('dsp_harness.rs', 'zc,zcclk,symsync,ssclk,fftfilt,fftfiltc,fftstream,firf,hilbert,iir1,slicer,qdemod'),
@@ -38,6 +40,7 @@ UNIT_HARNESS = {
     # byte-oriented / file / socket blocks
     'rtlsdr': ('io_harness.rs', 'rtlsdr'),
     'fsink': ('io_harness.rs', 'fsink'),
+    'fsrc': ('io_harness.rs', 'fsrc'),
     's2pdu': ('io_harness.rs', 's2pdu'),
     'auenc': ('io_harness.rs', 'auenc'),
     'tcp': ('io_harness.rs', 'tcp'),
